@@ -69,7 +69,12 @@ mutual
     | .list [.atom "exit", n] => do pure (.exit (some (← n.nat?)))
     | .list [.atom "sete", n] => do pure (.setE ((← n.nat?) != 0))
     | .list [.atom "setm", n] => do pure (.setM ((← n.nat?) != 0))
-    | .list [.atom "call", n] => do pure (.call (← toName n))
+    | .list [.atom "call", n] => do pure (.call (← toName n) 0)
+    | .list [.atom "call", n, k] => do pure (.call (← toName n) (← k.nat?))
+    | .list [.atom "setp", k] => do pure (.setParams (← k.nat?))
+    | .list [.atom "freeze", n] => do pure (.freeze (← toName n))
+    | .list [.atom "forpos", b] => do pure (.forPos (← toList b))
+    | .list [.atom "forro", k] => do pure (.forRo (← k.nat?))
     | .list [.atom "unk"] => some .unknown
     | .list [.atom "abs", w, r, a] => do pure (.absent (← w.optNat?) (← r.optNat?) (← a.optNat?))
     | .list [.atom "tick", c, k] => do pure (.tick (← c.nat?) (← k.nat?))
